@@ -18,22 +18,33 @@ class InjectedIOError(OSError):
 
 
 class Injector:
-  """Counts effects; carries at most one fault: ('crash', i) | ('crash_write', i, p) | ('error', i)."""
+  """Counts effects; carries at most one fault: ('crash', i) | ('crash_lose', i) | ('crash_write', i, p) | ('error', i).
+
+  'crash': everything written so far reached the file. 'crash_lose': process death while data still sat in the
+  user-space buffers of the open write handles - every open handle keeps only what it had explicitly flushed.
+  """
 
   def __init__(self, fault=None):
     self.fault = fault
     self.trace = []
     self.dead = False
+    self.gf_handles = []
+
+  def die(self, lose):
+    self.dead = True
+    for h in list(self.gf_handles):
+      h._kill(lose)  # pylint: disable=protected-access
 
   def effect(self, kind, name, nbytes=None):
     """Called BEFORE the effect happens. Returns a prefix length for torn writes, else None."""
     i = len(self.trace)
-    self.trace.append({'i': i, 'kind': kind, 'name': name, 'nbytes': nbytes})
+    self.trace.append({'i': i, 'kind': kind, 'name': name, 'nbytes': nbytes,
+                       'pending': sum(len(d) for h in self.gf_handles for d in h._pending)})  # pylint: disable=protected-access
     f = self.fault
     if f is not None and f[1] == i:
-      if f[0] == 'crash':
-        self.dead = True
-        raise Crash('crash before effect %d %s %s' % (i, kind, name))
+      if f[0] in ('crash', 'crash_lose'):
+        self.die(lose=f[0] == 'crash_lose')
+        raise Crash('crash before effect %d %s %s%s' % (i, kind, name, ' (unflushed data lost)' if f[0] == 'crash_lose' else ''))
       if f[0] == 'error':
         raise InjectedIOError('injected I/O error at effect %d %s %s' % (i, kind, name))
       if f[0] == 'crash_write':
@@ -50,29 +61,39 @@ class _GFileWrapper:
     self._mode = mode
     self._dead = False
     self._closed = False
+    self._pending = []   # written but not yet flushed/closed: lives in the process, not in the file
     inj.effect('open', '%s:%s' % (os.path.basename(path), mode))
     self._f = real_gfile_cls(path, mode)
+    if 'w' in mode or 'a' in mode:
+      inj.gf_handles.append(self)
 
   def write(self, data):
     if self._dead:
       raise Crash('write on a dead handle')
     n = len(data)
-    try:
-      p = self._inj.effect('write', os.path.basename(self._path), n)
-    except Crash:
-      self._kill()
-      raise
+    p = self._inj.effect('write', os.path.basename(self._path), n)   # a Crash here kills every open handle
     if p is not None:
-      self._f.write(data[:p])
-      self._kill()
-      self._inj.dead = True
+      self._pending.append(data[:p])
+      self._inj.die(lose=False)
       raise Crash('crash after %d of %d bytes of %s' % (p, n, os.path.basename(self._path)))
-    return self._f.write(data)
+    self._pending.append(data)
+    return None
 
-  def _kill(self):
-    """Process death: what was written so far is what the file holds."""
+  def _persist(self):
+    for d in self._pending:
+      self._f.write(d)
+    self._pending = []
+
+  def _kill(self, lose=False):
+    """Process death: the file holds what was flushed, plus (unless `lose`) what was written since."""
+    if self._dead:
+      return
     self._dead = True
+    if self in self._inj.gf_handles:
+      self._inj.gf_handles.remove(self)
     try:
+      if not lose:
+        self._persist()
       self._f.close()
     except Exception:  # pylint: disable=broad-except
       pass
@@ -86,16 +107,16 @@ class _GFileWrapper:
   def close(self):
     if self._dead or self._closed:
       return
-    try:
-      self._inj.effect('close', os.path.basename(self._path))
-    except Crash:
-      self._kill()
-      raise
+    self._inj.effect('close', os.path.basename(self._path))
     self._closed = True
+    if self in self._inj.gf_handles:
+      self._inj.gf_handles.remove(self)
+    self._persist()
     self._f.close()
 
   def flush(self):
     if not self._dead:
+      self._persist()
       self._f.flush()
 
   def __enter__(self):
@@ -228,7 +249,13 @@ def explore(workdir, initial_states, run, faults_for, check_clean, check_state, 
     restore(workdir, state)
     result, trace = run(None)
     stats['runs'] += 1
-    check_clean(state, result, snapshot(workdir), how)
+    clean_end = snapshot(workdir)
+    check_clean(state, result, clean_end, how)
+    ck = canon(clean_end)
+    if ck not in seen:
+      # the state a completed call leaves behind is a start state as well (calling again: reuse, and faults while reusing)
+      seen[ck] = (clean_end, depth, (how or []) + [['ok']])
+      order.append(ck)
     for fault in faults_for(trace, depth):
       restore(workdir, state)
       run(fault)
